@@ -188,6 +188,19 @@ func (r *reporter) c04Inverse(c *MatCase, ti tinfo) {
 		got = r.inverse(c, ti, "insitu_reuse", nil, full, is)
 		r.sameAs("inverse", ti.name, "insitu_reuse", ref, got, ti, full.kappa)
 	}
+	// aliasing: the work buffer A is the input matrix itself (as the repository's
+	// own TestMatrixPerformance sets it up): the input may be consumed, the result must be right
+	{
+		a := mkMatrix(t, c.A)
+		var res Matrix
+		o := call(func() error {
+			var err error
+			res, err = matrixInverse.Run(a, &matrixInverse.InSitu{A: a})
+			return err
+		})
+		got = r.judgeM("inverse", ti.name, "insitu_a_is_input", nil, o, res, full, ti.tol, n)
+		r.sameAs("inverse", ti.name, "insitu_a_is_input", ref, got, ti, full.kappa)
+	}
 	if c.Tri {
 		got = r.inverse(c, ti, "tri", nil, full, matrixInverse.UpperTriangular{Value: true})
 		r.sameAs("inverse", ti.name, "tri", ref, got, ti, full.kappa*1e3) // different algorithm: only a loose cross-check
@@ -385,6 +398,29 @@ func (r *reporter) c04BackSubstitution(c *MatCase, ti tinfo) {
 			r.note = nil
 		}
 		run("default")
+		// in-place solves: the result buffer is the right-hand side itself; the
+		// matrix buffer is the matrix itself
+		{
+			a := mkMatrix(t, c.A)
+			b := mkVector(t, bs[q])
+			var res Vector
+			o := call(func() error {
+				var err error
+				res, err = backSubstitution.Run(a, b, &backSubstitution.InSitu{X: b})
+				return err
+			})
+			r.note = vh.M{"rhs": bs[q]}
+			r.judgeV("backSubstitution", ti.name, "insitu_x_is_b", nil, o, res, want, full.kappa, full.sing, ti.tol)
+			a = mkMatrix(t, c.A)
+			b = mkVector(t, bs[q])
+			o = call(func() error {
+				var err error
+				res, err = backSubstitution.Run(a, b, &backSubstitution.InSitu{A: a, X: b})
+				return err
+			})
+			r.judgeV("backSubstitution", ti.name, "insitu_a_is_input+x_is_b", nil, o, res, want, full.kappa, full.sing, ti.tol)
+			r.note = nil
+		}
 		run("insitu_x_dirty", &backSubstitution.InSitu{X: dirtyVector(t, n), T: junkScalar(t, 3)})
 		run("insitu_a_dirty", &backSubstitution.InSitu{A: dirtyMatrix(t, n)})
 	}
